@@ -1,8 +1,11 @@
 package ix
 
 import (
+	"bytes"
 	"encoding/json"
 	"fmt"
+	"os"
+	"os/exec"
 	"strings"
 
 	"github.com/opsidian/parsley/ast"
@@ -202,6 +205,23 @@ func c17Families() []c17Family {
 	}
 	fams = append(fams, c17Family{name: "brackets with shared prefixes S -> A | B, X -> (X) | (X] | x, valid B text", build: shared, input: inShared, check: anyValue})
 
+	// hidden left recursion whose optional prefix MATCHES: L -> L ',' X | X, X -> '-'? X '!' | 'd' on "-d!,-d!,..."
+	// (each item has exactly one derivation)
+	hiddenList := func() parsley.Parser {
+		var l, x parser.Func
+		x = combinator.Memoize(combinator.Any(seq(combinator.Optional(r('-')), &x, r('!')), r('d')))
+		l = combinator.Memoize(combinator.Any(seq(&l, r(','), &x), &x))
+		return combinator.Sentence(&l)
+	}
+	inHiddenList := func(n int) string {
+		k := n / 4
+		if k < 1 {
+			k = 1
+		}
+		return strings.TrimSuffix(strings.Repeat("-d!,", k), ",")
+	}
+	fams = append(fams, c17Family{name: "list of hidden-left-recursive items whose optional prefix matches", build: hiddenList, input: inHiddenList, check: anyValue})
+
 	// rejected inputs: the work bound holds for failing parses as well
 	wrongFirst := func(in func(int) string) func(int) string { return func(n int) string { return "x" + in(n) } }
 	truncated := func(in func(int) string) func(int) string {
@@ -264,7 +284,7 @@ func c17One(res *explore.Result, fams []c17Family, fi int, n int, known map[int]
 			}
 		}
 		if size < 16 {
-			return 4000000 // small constant sizes: a generous absolute cap
+			return 400000 // small constant sizes: a generous absolute cap (the families need a few thousand calls here)
 		}
 		return 0
 	}
@@ -287,7 +307,7 @@ func c17One(res *explore.Result, fams []c17Family, fi int, n int, known map[int]
 		res.Add("transitions", int64(c1))
 	}
 	if capped {
-		return viol("superpolynomial-growth", fmt.Sprintf("the parse of an input of %d bytes was aborted after %d parser calls (more than 16x the calls of half the size, or the absolute cap)", len(f.input(n)), c1))
+		return viol("superpolynomial-growth", fmt.Sprintf("the parse of an input of %d bytes was aborted after %d parser calls (more than 16x the calls of half the size, or the absolute cap for small sizes)", len(f.input(n)), c1))
 	}
 	if pm != "" {
 		return viol("panic", pm)
@@ -378,6 +398,22 @@ func c17Run(env *explore.Env) *explore.Result {
 
 func c17Replay(raw json.RawMessage) *explore.Result {
 	res := explore.NewResult()
+	var crash struct {
+		Shard  *int   `json:"crashed_shard"`
+		Shards int    `json:"shards"`
+		Tier   string `json:"tier"`
+		Seed   int64  `json:"seed"`
+	}
+	if json.Unmarshal(raw, &crash) == nil && crash.Shard != nil {
+		self, _ := os.Executable()
+		cmd := exec.Command(self, "worker", "C17", crash.Tier, fmt.Sprint(*crash.Shard), fmt.Sprint(crash.Shards), fmt.Sprint(crash.Seed))
+		cmd.Env = append(os.Environ(), "GOMAXPROCS=1", "GOTRACEBACK=single")
+		out, err := cmd.CombinedOutput()
+		if err != nil && (bytes.Contains(out, []byte("fatal error")) || bytes.Contains(out, []byte("stack exceeds"))) {
+			res.Violate("worker-crash", "the worker died of a fatal runtime error again", json.RawMessage(raw))
+		}
+		return res
+	}
 	var c c17Case
 	fams := c17Families()
 	if err := json.Unmarshal(raw, &c); err != nil || c.Family < 0 || c.Family >= len(fams) {
@@ -402,12 +438,13 @@ func init() {
 	explore.Register(&explore.Check{
 		ID:    "C17",
 		Level: "exploration",
-		Rule: "21 families of unambiguous grammars (direct, mutual and hidden left recursion, expr/term/factor arithmetic (operators as one alternative, and one left-recursive alternative per operator) with several operator patterns and nested parentheses, nested brackets on nested and flat inputs, separated lists, a precedence ladder of six left-recursive levels, brackets whose alternatives share a prefix, and five families of REJECTED inputs — wrong first byte, dangling operator, missing closer, trailing garbage) x EVERY size n from 4 to the bound: the canonical inputs of size n and 2n are parsed; calls(2n) <= 16*calls(n) for n >= 8, identical call count on a freshly built grammar, parse succeeds with the expected value; " +
+		Rule: "22 families of unambiguous grammars (direct, mutual and hidden left recursion, expr/term/factor arithmetic (operators as one alternative, and one left-recursive alternative per operator) with several operator patterns and nested parentheses, nested brackets on nested and flat inputs, separated lists, a precedence ladder of six left-recursive levels, brackets whose alternatives share a prefix, and five families of REJECTED inputs — wrong first byte, dangling operator, missing closer, trailing garbage) x EVERY size n from 4 to the bound: the canonical inputs of size n and 2n are parsed; calls(2n) <= 16*calls(n) for n >= 8, identical call count on a freshly built grammar, parse succeeds with the expected value; " +
 			"evaluation = one (family, n) pair; every evaluated pair is non-trivial (a successful parse of a left-recursive or nested input); a bounded statement about these families and lengths, not a proof of a polynomial bound",
-		Assume: []string{"Context.CallCount is the work measure the property names; ambiguous inputs (e.g. x-prefixed inputs of P -> x? P b | a) are outside the property and excluded"},
-		Shards: func(string) int { return len(c17Families()) },
-		Run:    c17Run,
-		Replay: c17Replay,
+		Assume:           []string{"Context.CallCount is the work measure the property names; ambiguous inputs (e.g. x-prefixed inputs of P -> x? P b | a) are outside the property and excluded"},
+		Shards:           func(string) int { return len(c17Families()) },
+		Run:              c17Run,
+		CrashIsViolation: true, // a parse that overflows the stack has certainly not stayed polynomial
+		Replay:           c17Replay,
 		Bounds: func(tier string) map[string]any {
 			return map[string]any{"families": len(c17Families()), "n_from": 4, "n_to": c17MaxN(tier), "largest_input_bytes_about": 2 * c17MaxN(tier)}
 		},
